@@ -61,3 +61,14 @@ Example C19_nonvacuous :
   | Ok k1 => grounded k1 [([1], SFin 5)] /\ t_pos_best k1 = Some [1]
   | Err _ => False end.
 Proof. vm_compute. split; [constructor; cbn; [left; reflexivity|left; reflexivity|constructor; [cbn; left; reflexivity|constructor]]|reflexivity]. Qed.
+
+Require Import PyPrims PyPrimsQ CoreOpt Algos ShcGen ShcTie.
+(* the acceptance step of StochasticHillClimbing / SimulatedAnnealing GENERATED from the source (generated/ShcGen.v): after it the tracked
+   current pair is the pair just evaluated or the previous current pair, and the tracked best pair is untouched *)
+Theorem C19_source_stochastic_step_grounded : forall (g g' : g_shc) (s : score),
+  sle s (t_score_cur (sh_trk g)) = true -> g_SHC_evaluate g s = Ok g' ->
+  ((t_pos_cur (sh_trk g') = t_pos_new (sh_trk g) /\ t_score_cur (sh_trk g') = s) \/
+   (t_pos_cur (sh_trk g') = t_pos_cur (sh_trk g) /\ t_score_cur (sh_trk g') = t_score_cur (sh_trk g))) /\
+  t_pos_best (sh_trk g') = t_pos_best (sh_trk g) /\ t_score_best (sh_trk g') = t_score_best (sh_trk g).
+Proof. exact source_transition_grounded. Qed.
+Print Assumptions C19_source_stochastic_step_grounded.
